@@ -19,6 +19,9 @@ pub struct Case {
     pub colours: Colours,
     /// Plane::new paddings of the source frame
     pub pads: [(usize, usize); 3],
+    /// a second image (own config) whose round trip is interleaved with this one: forward A, forward B, backward A,
+    /// backward B - what a program comparing two clips does. Each must come back within its budget all the same.
+    pub partner: Option<Box<Case>>,
 }
 #[derive(Debug, Clone)]
 pub enum Colours {
@@ -68,8 +71,25 @@ impl Case {
         }
     }
     fn json_with(&self, cols: &[[f32; 3]], bw: usize, bh: usize) -> Value {
-        json!({"prop":"C09","cfg":cfg_json(&self.cfg),"storage": if self.u8_storage {"u8"} else {"u16"},"bw":bw,"bh":bh,"pads":self.pads,
-               "colours": cols.iter().map(|p| px2j(*p)).collect::<Vec<_>>()})
+        let mut v = json!({"prop":"C09","cfg":cfg_json(&self.cfg),"storage": if self.u8_storage {"u8"} else {"u16"},"bw":bw,"bh":bh,"pads":self.pads,
+               "colours": cols.iter().map(|p| px2j(*p)).collect::<Vec<_>>()});
+        if let Some(p) = &self.partner {
+            let pc = p.block_colours();
+            v["partner"] = p.json_with(&pc, p.bw, p.bh);
+        }
+        v
+    }
+    fn from_json(v: &Value) -> Option<Case> {
+        let cols: Vec<[f32; 3]> = v.get("colours")?.as_array()?.iter().filter_map(j2px).collect();
+        Some(Case {
+            cfg: cfg_from_json(v.get("cfg")?)?,
+            u8_storage: v.get("storage").and_then(|s| s.as_str()) == Some("u8"),
+            bw: v.get("bw").and_then(|x| x.as_u64()).unwrap_or(1) as usize,
+            bh: v.get("bh").and_then(|x| x.as_u64()).unwrap_or(1) as usize,
+            colours: Colours::Explicit(cols),
+            pads: v.get("pads").and_then(|p| serde_json::from_value(p.clone()).ok()).unwrap_or([(0, 0); 3]),
+            partner: v.get("partner").and_then(Case::from_json).map(Box::new),
+        })
     }
 }
 
@@ -90,7 +110,37 @@ pub fn strategy() -> BoxedStrategy<Case> {
                 1 => ((2049 + e.below(2100) as usize) >> ss.0, 1),
                 _ => (bw, bh),
             };
-            Case { cfg: cfg(m, t, physical_primaries()[pi], depth, full, ss), u8_storage: u8s, bw: bw.max(1), bh, colours: Colours::Seeded { stratum, seed }, pads }
+            // one case in four is a pair of interleaved round trips; the partner's config differs in one to three fields
+            let c = cfg(m, t, physical_primaries()[pi], depth, full, ss);
+            let partner = if e.below(4) == 0 {
+                let mut pc = c;
+                let prims = physical_primaries();
+                let mut changed = false;
+                if e.below(2) == 0 {
+                    pc.color_primaries = *e.pick(&prims);
+                    changed = true;
+                }
+                if e.below(3) == 0 {
+                    pc.transfer_characteristics = *e.pick(&SUP_TC);
+                    changed = true;
+                }
+                if e.below(3) == 0 {
+                    pc.matrix_coefficients = *e.pick(&STD_MC);
+                    changed = true;
+                }
+                if e.below(4) == 0 {
+                    pc.full_range = !pc.full_range;
+                    changed = true;
+                }
+                if !changed {
+                    pc.color_primaries = *e.pick(&prims);
+                }
+                let (pbw, pbh) = if e.below(2) == 0 { (bw.clamp(1, 8), bh) } else { (1 + e.below(4) as usize, 1 + e.below(4) as usize) };
+                Some(Box::new(Case { cfg: pc, u8_storage: u8s, bw: pbw, bh: pbh, colours: Colours::Seeded { stratum: e.below(6) as u8, seed: e.next_u64() }, pads: [(0, 0); 3], partner: None }))
+            } else {
+                None
+            };
+            Case { cfg: c, u8_storage: u8s, bw: bw.max(1), bh, colours: Colours::Seeded { stratum, seed }, pads, partner }
         })
         .boxed()
 }
@@ -110,27 +160,25 @@ pub fn budget(depth: u8) -> f64 {
     (0.015 * ((1u64 << depth) - 1) as f64).max(1.0)
 }
 
-type Planes = Vec<(usize, usize, Vec<u16>)>;
-
-fn roundtrip<T: Pixel>(c: &YuvConfig, planes: &[Vec<u16>; 3], w: usize, h: usize, pads: [(usize, usize); 3]) -> Result<(Planes, Planes, YuvConfig, usize, usize), String> {
-    let frame = yuv_frame::<T>(w, h, (c.subsampling_x, c.subsampling_y), pads, planes, 0);
-    let yuv = Yuv::<T>::new(frame, *c).map_err(|e| format!("Yuv::new rejected a well-formed frame: {e:?}"))?;
-    let xyb = Xyb::try_from(&yuv).map_err(|e| format!("YUV->XYB failed on a supported config: {e:?}"))?;
-    if xyb.width() != w || xyb.height() != h {
-        return Err(format!("XYB image is {}x{}", xyb.width(), xyb.height()));
-    }
-    let back = Yuv::<T>::try_from((xyb, yuv.config())).map_err(|e| format!("XYB->YUV failed on a supported config: {e:?}"))?;
-    Ok((yuv_samples(&yuv), yuv_samples(&back), back.config(), back.width(), back.height()))
+/// a round trip in flight: the source image and its XYB version
+enum Fwd {
+    U8(Yuv<u8>, Xyb),
+    U16(Yuv<u16>, Xyb),
 }
 
-pub fn check(case: &Case, st: &mut Stats) -> Result<(), Violation> {
+struct Prepared {
+    cols: Vec<[f32; 3]>,
+    planes: [Vec<u16>; 3],
+    w: usize,
+    h: usize,
+}
+
+/// in-gamut image: pixels constant within each chroma block, codes by the oracle quantiser
+fn prepare(case: &Case) -> Prepared {
     let cols = case.block_colours();
     let c = &case.cfg;
     let (ssx, ssy) = (c.subsampling_x as usize, c.subsampling_y as usize);
     let (w, h) = (case.bw << ssx, case.bh << ssy);
-    let sig = format!("C09:{}:{}:{}", mc_name(c.matrix_coefficients), tc_name(c.transfer_characteristics), cp_name(c.color_primaries));
-    let fail = |msg: String, cols: &[[f32; 3]], bw: usize, bh: usize| Violation { signature: sig.clone(), message: msg, case: case.json_with(cols, bw, bh) };
-    // in-gamut image: pixels constant within each chroma block, codes by the oracle quantiser
     let codes: Vec<[u16; 3]> = cols.iter().map(|p| quantise(c, *p)).collect();
     let mut planes = [vec![0u16; w * h], vec![0u16; case.bw * case.bh], vec![0u16; case.bw * case.bh]];
     for by in 0..case.bh {
@@ -145,20 +193,71 @@ pub fn check(case: &Case, st: &mut Stats) -> Result<(), Violation> {
             }
         }
     }
-    let res = catch(|| if case.u8_storage { roundtrip::<u8>(c, &planes, w, h, case.pads) } else { roundtrip::<u16>(c, &planes, w, h, case.pads) });
+    Prepared { cols, planes, w, h }
+}
+
+fn forward(case: &Case, p: &Prepared) -> Result<Fwd, String> {
+    fn go<T: Pixel>(case: &Case, p: &Prepared) -> Result<(Yuv<T>, Xyb), String> {
+        let c = &case.cfg;
+        let frame = yuv_frame::<T>(p.w, p.h, (c.subsampling_x, c.subsampling_y), case.pads, &p.planes, 0);
+        let yuv = Yuv::<T>::new(frame, *c).map_err(|e| format!("Yuv::new rejected a well-formed frame: {e:?}"))?;
+        let xyb = Xyb::try_from(&yuv).map_err(|e| format!("YUV->XYB failed on a supported config: {e:?}"))?;
+        if xyb.width() != p.w || xyb.height() != p.h {
+            return Err(format!("XYB image is {}x{}", xyb.width(), xyb.height()));
+        }
+        Ok((yuv, xyb))
+    }
+    match catch(|| if case.u8_storage { go::<u8>(case, p).map(|(y, x)| Fwd::U8(y, x)) } else { go::<u16>(case, p).map(|(y, x)| Fwd::U16(y, x)) }) {
+        Ok(r) => r,
+        Err(pn) => Err(format!("panic: {pn}")),
+    }
+}
+
+type Planes = Vec<(usize, usize, Vec<u16>)>;
+
+fn backward(f: Fwd) -> Result<(Planes, Planes, YuvConfig, usize, usize), String> {
+    fn go<T: Pixel>(yuv: Yuv<T>, xyb: Xyb) -> Result<(Planes, Planes, YuvConfig, usize, usize), String>
+    where
+        Yuv<T>: TryFrom<(Xyb, YuvConfig), Error = yuvxyb::ConversionError>,
+    {
+        let back = Yuv::<T>::try_from((xyb, yuv.config())).map_err(|e| format!("XYB->YUV failed on a supported config: {e:?}"))?;
+        Ok((yuv_samples(&yuv), yuv_samples(&back), back.config(), back.width(), back.height()))
+    }
+    match catch(|| match f {
+        Fwd::U8(y, x) => go(y, x),
+        Fwd::U16(y, x) => go(y, x),
+    }) {
+        Ok(r) => r,
+        Err(pn) => Err(format!("panic: {pn}")),
+    }
+}
+
+/// judge one finished round trip
+fn verify(case: &Case, top: &Case, p: &Prepared, res: Result<(Planes, Planes, YuvConfig, usize, usize), String>, st: &mut Stats) -> Result<(), Violation> {
+    let c = &case.cfg;
+    let cols = &p.cols;
+    let (w, h) = (p.w, p.h);
+    let (ssx, ssy) = (c.subsampling_x as usize, c.subsampling_y as usize);
+    let sig = format!("C09:{}:{}:{}", mc_name(c.matrix_coefficients), tc_name(c.transfer_characteristics), cp_name(c.color_primaries));
+    let interleaved = top.partner.is_some();
+    // a failure of an interleaved pair is reported with the whole pair
+    let whole = || -> Value {
+        let tc = top.block_colours();
+        top.json_with(&tc, top.bw, top.bh)
+    };
+    let fail = |msg: String| Violation { signature: sig.clone(), message: if interleaved { format!("{msg} [in a pair of interleaved round trips: forward A, forward B, backward A, backward B]") } else { msg }, case: whole() };
     let (orig, back, cfg2, w2, h2) = match res {
-        Err(p) => return Err(fail(format!("panic: {p}; cfg {}", cfg_json(c)), &cols, case.bw, case.bh)),
-        Ok(Err(e)) => return Err(fail(format!("{e}; cfg {}", cfg_json(c)), &cols, case.bw, case.bh)),
-        Ok(Ok(r)) => r,
+        Err(e) => return Err(fail(format!("{e}; cfg {}", cfg_json(c)))),
+        Ok(r) => r,
     };
     st.evaluations += 1;
     if w2 != w || h2 != h || cfg2 != *c {
-        return Err(fail(format!("width/height/config not preserved: {w2}x{h2} {}", cfg_json(&cfg2)), &cols, case.bw, case.bh));
+        return Err(fail(format!("width/height/config not preserved: {w2}x{h2} {}", cfg_json(&cfg2))));
     }
     let b = budget(c.bit_depth);
     for pl in 0..3 {
         if (orig[pl].0, orig[pl].1) != (back[pl].0, back[pl].1) {
-            return Err(fail(format!("plane {pl} size changed"), &cols, case.bw, case.bh));
+            return Err(fail(format!("plane {pl} size changed")));
         }
         let pw = orig[pl].0;
         for (i, (a, z)) in orig[pl].2.iter().zip(&back[pl].2).enumerate() {
@@ -167,11 +266,11 @@ pub fn check(case: &Case, st: &mut Stats) -> Result<(), Violation> {
                 let (x, y) = (i % pw, i / pw);
                 let (bx, by) = if pl == 0 { (x >> ssx, y >> ssy) } else { (x, y) };
                 let col = cols[by * case.bw + bx];
-                // does the colour fail on its own (1x1 block image, no padding)? otherwise report the whole image
-                let single = Case { cfg: *c, u8_storage: case.u8_storage, bw: 1, bh: 1, colours: Colours::Explicit(vec![col]), pads: [(0, 0); 3] };
-                let alone_fails = if case.bw * case.bh > 1 || case.pads != [(0, 0); 3] { check(&single, &mut Stats::new()).is_err() } else { true };
+                // does the colour fail on its own (1x1 block image, no padding, no partner)? otherwise report the whole case
+                let single = Case { cfg: *c, u8_storage: case.u8_storage, bw: 1, bh: 1, colours: Colours::Explicit(vec![col]), pads: [(0, 0); 3], partner: None };
+                let alone_fails = if interleaved || case.bw * case.bh > 1 || case.pads != [(0, 0); 3] { check(&single, &mut Stats::new()).is_err() } else { true };
                 let msg = format!("plane {pl} sample ({x},{y}): {a} came back as {z} (|diff| {d} > budget {b:.2}); colour {:?}; image {}x{} blocks, paddings {:?}; cfg {}", col, case.bw, case.bh, case.pads, cfg_json(c));
-                return Err(if alone_fails { Violation { signature: sig.clone(), message: msg, case: single.json_with(&[col], 1, 1) } } else { fail(msg, &cols, case.bw, case.bh) });
+                return Err(if alone_fails { Violation { signature: sig.clone(), message: msg, case: single.json_with(&[col], 1, 1) } } else { fail(msg) });
             }
             st.max("max_diff_over_budget", d / b);
         }
@@ -183,9 +282,27 @@ pub fn check(case: &Case, st: &mut Stats) -> Result<(), Violation> {
     st.class(&format!("depth_{}", c.bit_depth), 1);
     if cols.iter().any(|p| p[0] != p[1] || p[1] != p[2]) {
         let bits: Vec<[u32; 3]> = cols.iter().map(|p| [p[0].to_bits(), p[1].to_bits(), p[2].to_bits()]).collect();
-        st.nontrivial(&(cfg_json(c).to_string(), case.u8_storage, bits));
+        st.nontrivial(&(cfg_json(c).to_string(), case.u8_storage, bits, interleaved));
     }
-    st.sample(|| case.json_with(&cols[..cols.len().min(3)], cols.len().min(3), 1));
+    Ok(())
+}
+
+pub fn check(case: &Case, st: &mut Stats) -> Result<(), Violation> {
+    let pa = prepare(case);
+    let fa = forward(case, &pa);
+    match &case.partner {
+        None => verify(case, case, &pa, fa.and_then(backward), st)?,
+        Some(partner) => {
+            let pb = prepare(partner);
+            let fb = forward(partner, &pb);
+            let ra = fa.and_then(backward);
+            let rb = fb.and_then(backward);
+            verify(case, case, &pa, ra, st)?;
+            verify(partner, case, &pb, rb, st)?;
+            st.class("interleaved_pairs", 1);
+        }
+    }
+    st.sample(|| case.json_with(&pa.cols[..pa.cols.len().min(3)], pa.cols.len().min(3), 1));
     Ok(())
 }
 
@@ -214,7 +331,7 @@ fn all_configs(ctx: &Ctx, st: &mut Stats) -> Vec<Violation> {
     let out = par_sweep(ctx, st, n as u64, |lo, hi, st| {
         for j in lo..hi {
             let c = jobs[j as usize];
-            let case = Case { cfg: c, u8_storage: c.bit_depth == 8 && j % 2 == 0, bw, bh, colours: Colours::Seeded { stratum: (j % 6) as u8, seed: mix64(seed0 ^ j) }, pads: [(0, 0), ((j % 7) as usize, 0), (0, (j % 3) as usize)] };
+            let case = Case { cfg: c, u8_storage: c.bit_depth == 8 && j % 2 == 0, bw, bh, colours: Colours::Seeded { stratum: (j % 6) as u8, seed: mix64(seed0 ^ j) }, pads: [(0, 0), ((j % 7) as usize, 0), (0, (j % 3) as usize)], partner: None };
             let mut local = Stats::new();
             local.sample_budget = 0;
             if let Err(v) = check(&case, &mut local) {
@@ -234,8 +351,54 @@ fn all_configs(ctx: &Ctx, st: &mut Stats) -> Vec<Violation> {
     out
 }
 
+/// every ordered pair of (primaries, primaries) and of (transfer, transfer) as an interleaved pair of round trips
+fn interleaved_pairs(ctx: &Ctx, st: &mut Stats) -> Vec<Violation> {
+    let prims = physical_primaries();
+    let mut jobs: Vec<(YuvConfig, YuvConfig)> = Vec::new();
+    for (i, p1) in prims.iter().enumerate() {
+        for (k, p2) in prims.iter().enumerate() {
+            for (d, full) in [(8u8, false), (10, true)] {
+                let a = cfg(STD_MC[(i + k) % 7], SUP_TC[(i * 3 + k) % 14], *p1, d, full, (0, 0));
+                let mut b = a;
+                b.color_primaries = *p2;
+                jobs.push((a, b));
+            }
+        }
+    }
+    for (i, t1) in SUP_TC.iter().enumerate() {
+        for (k, t2) in SUP_TC.iter().enumerate() {
+            let a = cfg(STD_MC[(i + k) % 7], *t1, prims[(i + 2 * k) % 10], 10, k % 2 == 0, (0, 0));
+            let mut b = a;
+            b.transfer_characteristics = *t2;
+            jobs.push((a, b));
+        }
+    }
+    let seed0 = ctx.seed;
+    par_sweep(ctx, st, jobs.len() as u64, |lo, hi, st| {
+        for j in lo..hi {
+            let (a, b) = jobs[j as usize];
+            let partner = Case { cfg: b, u8_storage: b.bit_depth == 8, bw: 3, bh: 2, colours: Colours::Seeded { stratum: ((j + 1) % 6) as u8, seed: mix64(seed0 ^ j ^ 0x9A12) }, pads: [(0, 0); 3], partner: None };
+            let case = Case { cfg: a, u8_storage: a.bit_depth == 8, bw: 3, bh: 2, colours: Colours::Seeded { stratum: (j % 6) as u8, seed: mix64(seed0 ^ j ^ 0x9A11) }, pads: [(0, 0); 3], partner: Some(Box::new(partner)) };
+            let mut local = Stats::new();
+            local.sample_budget = 0;
+            if let Err(v) = check(&case, &mut local) {
+                return Some(v);
+            }
+            st.evaluations += 1;
+            st.comparisons += local.comparisons;
+            st.nontrivial_by_construction += 1;
+            st.class("enumerated_interleaved_pairs", 1);
+        }
+        None
+    })
+}
+
 pub fn run(ctx: &Ctx, st: &mut Stats) -> Vec<Violation> {
     let mut v = run_proptest(ctx, st, "random", ctx.cases(60_000, 3_000_000), strategy, check);
+    if !v.is_empty() {
+        return v;
+    }
+    v.extend(interleaved_pairs(ctx, st));
     if !v.is_empty() {
         return v;
     }
@@ -249,7 +412,7 @@ pub fn run(ctx: &Ctx, st: &mut Stats) -> Vec<Violation> {
 
 /// real-size frames (see gen::LARGE_SIZES)
 fn large_frames(ctx: &Ctx, st: &mut Stats) -> Vec<Violation> {
-    let sizes: Vec<(usize, usize)> = if ctx.quick() { crate::gen::LARGE_SIZES[..8].to_vec() } else { crate::gen::LARGE_SIZES.to_vec() };
+    let sizes: Vec<(usize, usize)> = crate::gen::large_sizes(ctx.quick());
     let prims = physical_primaries();
     let seed0 = ctx.seed;
     par_sweep(ctx, st, sizes.len() as u64, |lo, hi, st| {
@@ -260,7 +423,7 @@ fn large_frames(ctx: &Ctx, st: &mut Stats) -> Vec<Violation> {
                 let (depth, u8s) = [(8u8, true), (10, false), (16, false), (8, false)][((j + k) % 4) as usize];
                 let c = cfg(STD_MC[((j + k) % 7) as usize], SUP_TC[((j * 3 + k) % 14) as usize], prims[((j + 2 * k) % 10) as usize], depth, k % 2 == 0, ss);
                 let (bw, bh) = ((w >> ss.0).max(1), (h >> ss.1).max(1));
-                let case = Case { cfg: c, u8_storage: u8s, bw, bh, colours: Colours::Seeded { stratum: (k % 6) as u8, seed: mix64(seed0 ^ (j << 8) ^ k) }, pads: [(0, 0), ((k % 2) as usize * 5, 0), (0, 0)] };
+                let case = Case { cfg: c, u8_storage: u8s, bw, bh, colours: Colours::Seeded { stratum: (k % 6) as u8, seed: mix64(seed0 ^ (j << 8) ^ k) }, pads: [(0, 0), ((k % 2) as usize * 5, 0), (0, 0)], partner: None };
                 let mut local = Stats::new();
                 local.sample_budget = 0;
                 if let Err(v) = check(&case, &mut local) {
@@ -277,16 +440,7 @@ fn large_frames(ctx: &Ctx, st: &mut Stats) -> Vec<Violation> {
 }
 
 pub fn replay(v: &Value) -> Result<(), String> {
-    let cols: Vec<[f32; 3]> = v.get("colours").and_then(|p| p.as_array()).ok_or("colours")?.iter().filter_map(j2px).collect();
-    let case = Case {
-        cfg: cfg_from_json(v.get("cfg").ok_or("cfg")?).ok_or("cfg")?,
-        u8_storage: v.get("storage").and_then(|s| s.as_str()) == Some("u8"),
-        bw: v.get("bw").and_then(|x| x.as_u64()).unwrap_or(1) as usize,
-        bh: v.get("bh").and_then(|x| x.as_u64()).unwrap_or(1) as usize,
-        colours: Colours::Explicit(cols),
-        pads: v.get("pads").and_then(|p| serde_json::from_value(p.clone()).ok()).unwrap_or([(0, 0); 3]),
-    };
-    check(&case, &mut Stats::new()).map_err(|v| v.message)
+    check(&Case::from_json(v).ok_or("bad C09 case")?, &mut Stats::new()).map_err(|v| v.message)
 }
 
-pub const RULE: &str = "cases = (matrix in 7 standard, transfer in 14 supported, primaries in the 10 physical ones (ST 428 excluded as the statement says), range, depth 8..16, storage, subsampling in 6, image of 1..8 x 1..8 chroma blocks (one case in eight: a single row wider than 1024 / 2048 pixels), independent per-plane paddings 0..32, of gamma-encoded in-gamut colours from 6 strata: uniform, greys, cube corners, near black, near white, saturated) generated by proptest, plus an enumeration of the whole configuration space and real-size frames (32768 .. 2 M pixels, rows up to 131080 wide, 4:4:4 / 4:2:0 / 4:2:2); the image is encoded to codes by the oracle quantiser (nearest H.273 code), pixels constant within each chroma block; path Yuv::new -> Xyb::try_from(&yuv) -> Yuv::try_from((xyb, yuv.config())); oracle: width, height, config equal, every sample within max(1, 0.015*(2^n-1)) codes; non-trivial = image with a non-grey colour; distinct = by hash of (config, colours)";
+pub const RULE: &str = "cases = (matrix in 7 standard, transfer in 14 supported, primaries in the 10 physical ones (ST 428 excluded as the statement says), range, depth 8..16, storage, subsampling in 6, image of 1..8 x 1..8 chroma blocks (one case in eight: a single row wider than 1024 / 2048 pixels), independent per-plane paddings 0..32, of gamma-encoded in-gamut colours from 6 strata: uniform, greys, cube corners, near black, near white, saturated) generated by proptest (one case in four: a pair of images whose round trips are interleaved - forward A, forward B, backward A, backward B - the partner's config differing in one to three fields), plus an enumeration of the whole configuration space, every ordered pair of primaries as interleaved round trips and real-size frames (32768 .. 2 M pixels, rows up to 131080 wide, 4:4:4 / 4:2:0 / 4:2:2); the image is encoded to codes by the oracle quantiser (nearest H.273 code), pixels constant within each chroma block; path Yuv::new -> Xyb::try_from(&yuv) -> Yuv::try_from((xyb, yuv.config())); oracle: width, height, config equal, every sample within max(1, 0.015*(2^n-1)) codes; non-trivial = image with a non-grey colour; distinct = by hash of (config, colours)";
